@@ -359,7 +359,13 @@ func cmdGo(args []string) {
 	corpus := fs.String("corpus", "", "replay files to run first (comma separated)")
 	thorough := fs.Bool("thorough", false, "")
 	_ = thorough
+	sprobe := fs.Bool("shapesprobe", false, "")
 	fs.Parse(args)
+	if *sprobe {
+		b, _ := json.Marshal(shapesProbe())
+		fmt.Println(string(b))
+		return
+	}
 	os.MkdirAll(*out, 0o755)
 	var groups []Group
 	if *corpus != "" {
